@@ -68,8 +68,10 @@ class Feature:
         return "join(" + ",".join("complement(" + s + ")" for s in reversed(segs)) + ")"
 
 
-def random_features(rng, n, max_feats=3, allow_unnamed=False, codon_starts=False, mod3_segments=False):
-    """Random coding features on a genome of length n (segments ascending, non-overlapping within a feature)."""
+def random_features(rng, n, max_feats=3, allow_unnamed=False, codon_starts=False, mod3_segments=False, rotate=0.0):
+    """Random coding features on a genome of length n (segments non-overlapping within a feature; listed in ascending
+    order, or, with probability `rotate` for a joined feature, rotated as for a gene spanning the origin of a circular
+    genome: join(40..50,1..10))."""
     feats = []
     for k in range(rng.randint(1, max_feats)):
         strand = rng.choice("+-")
@@ -102,6 +104,9 @@ def random_features(rng, n, max_feats=3, allow_unnamed=False, codon_starts=False
             segs.append((p, p + l - 1))
             p += l + (gaps[i] if i < len(gaps) else 0)
         named = not (allow_unnamed and rng.random() < 0.3)
+        if len(segs) > 1 and rng.random() < rotate:
+            r = rng.randint(1, len(segs) - 1)
+            segs = segs[r:] + segs[:r]
         feats.append(Feature("g%d" % (k + 1), strand, segs, cs, named))
     return feats
 
@@ -168,14 +173,26 @@ def gff_rows(f):
     return [(a, b, phases[(a, b)]) for a, b in f.segments]
 
 
-def render_gff(genome, feats, seqid="ref", with_fasta=True, seqregion=True):
+def render_gff(genome, feats, seqid="ref", with_fasta=True, seqregion=True, mix=None):
+    """mix: a PRNG; with probability 0.4 the rows of different features are interleaved (each feature's own rows keep
+    their order), as in a coordinate-sorted GFF3 where a joined CDS has another feature's row between its rows."""
     out = ["##gff-version 3"]
     if seqregion:
         out.append("##sequence-region %s 1 %d" % (seqid, len(genome)))
+    queues = []
     for i, f in enumerate(feats):
+        q = []
         for a, b, ph in gff_rows(f):
             attrs = "ID=cds%d" % i + (";Name=%s" % f.name if f.named else "")
-            out.append("\t".join([seqid, "test", "CDS", str(a), str(b), ".", f.strand, str(ph), attrs]))
+            q.append("\t".join([seqid, "test", "CDS", str(a), str(b), ".", f.strand, str(ph), attrs]))
+        queues.append(q)
+    if mix is not None and len(queues) > 1 and mix.random() < 0.4:
+        while any(queues):
+            q = mix.choice([q for q in queues if q])
+            out.append(q.pop(0))
+    else:
+        for q in queues:
+            out += q
     if with_fasta:
         out.append("##FASTA")
         out.append(">" + seqid)
